@@ -4,10 +4,7 @@ ID = "C04"
 LEVEL = "other"
 MAIN = "c04"
 MODULES = ["geom", "stubs", "c04"]
-ACCESS = ["src__engine__search__aspiration", "src__engine__search__negamax", "src__engine__search__mod", "src__engine__search__tables",
-          "src__engine__transposition_table", "src__chess__movegen__tables__magics", "src__chess__movegen__tables__king",
-          "src__chess__movegen__tables__knights", "src__chess__movegen__tables__pawns", "src__chess__movegen__tables__between",
-          "src__chess__movegen__tables__mod", "src__chess__zobrist"]
+ACCESS = None
 DUMP = []
 PARALLEL = 8
 
